@@ -45,6 +45,17 @@ fn dump(dir: &str, blob: bool) -> i32 {
             }
         }
     }
+    for key in ["a", "b", "c"] {
+        for s in [4u64, 6, 8, SeqNo::MAX] {
+            match tree.get(key, s) {
+                Ok(v) => println!("GET {key}@{s} {}", v.map(|v| hex(&v)).unwrap_or_else(|| "-".into())),
+                Err(e) => {
+                    println!("READ_ERROR {e:?}");
+                    return 4;
+                }
+            }
+        }
+    }
     println!("COUNT {n}");
     println!("PERSISTED_SEQNO {:?}", tree.get_highest_persisted_seqno());
     println!("TABLES {}", tree.table_count());
@@ -88,6 +99,44 @@ fn workload(dir: &str, name: &str) -> lsm_tree::Result<()> {
             tree.insert("c", &big, 3);
             tree.flush_active_memtable(0)?;
             mark(3);
+        }
+        // two tables holding versions of the same key + a deleted key: the base for corruption replay
+        "std2" => {
+            let tree = open(dir, false)?;
+            tree.insert("a", "old", 3);
+            tree.insert("b", "b0", 4);
+            tree.flush_active_memtable(0)?;
+            tree.insert("a", "new", 5);
+            tree.remove("b", 6);
+            tree.insert("c", "c0", 7);
+            tree.flush_active_memtable(0)?;
+        }
+        "blob2" => {
+            let tree = open(dir, true)?;
+            tree.insert("a", &big, 3);
+            tree.insert("b", "b0", 4);
+            tree.flush_active_memtable(0)?;
+            let big2 = b"fedcba9876543210fedcba9876543210".repeat(4);
+            tree.insert("a", &big2, 5);
+            tree.insert("c", &big, 7);
+            tree.flush_active_memtable(0)?;
+        }
+        // write-once key, two weak-delete generations; the middle generation is flushed together with a
+        // GC watermark above it (C13): the oldest value must stay hidden
+        "weak-generations" => {
+            let tree = open(dir, false)?;
+            tree.insert("a", "v0", 0);
+            tree.flush_active_memtable(0)?;
+            tree.remove_weak("a", 1);
+            tree.insert("a", "v2", 2);
+            tree.remove_weak("a", 3);
+            tree.flush_active_memtable(4)?;
+            let got = tree.get("a", SeqNo::MAX)?;
+            println!("GET a {:?}", got.as_ref().map(|v| hex(v)));
+            if got.is_some() {
+                println!("DEMONSTRATED: a weakly deleted write-once key came back");
+                std::process::exit(7);
+            }
         }
         // FIFO drop whose version GC fails (old version file replaced by a directory => unlink fails)
         "fifo-gc-fail" => {
